@@ -171,7 +171,9 @@ def _work(arg):
     return n, len(fails), out, len(outcomes)
 
 
-HIST = [["-DA=b c"], ["-DA=b", "c"], ["-I", "/p"], ["-I/p"], ["-isystem", "/s"], ["-DQ"], [], ["-D", "A=b", "c"], ["-include", "f.h", "-I", "/p"], ["-I/p", "-isystem", "/s"]]
+HIST = [["-DA=b c"], ["-DA=b", "c"], ["-I", "/p"], ["-I/p"], ["-isystem", "/s"], ["-DQ"], [], ["-D", "A=b", "c"], ["-include", "f.h", "-I", "/p"], ["-I/p", "-isystem", "/s"],
+        # the same options as an earlier vector, other values given as separate arguments
+        ["-I", "/q"], ["-include", "g.h", "-I", "/q"]]
 
 
 def _history(arg):
